@@ -129,9 +129,15 @@ pub fn catch<T>(f: impl FnOnce() -> T) -> Result<T, String> {
     let r = panic::catch_unwind(AssertUnwindSafe(f));
     IN_CATCH.with(|c| *c.borrow_mut() -= 1);
     r.map_err(|_| {
-        LAST_PANIC
+        let msg = LAST_PANIC
             .with(|p| p.borrow_mut().take())
-            .unwrap_or_else(|| "panicked".to_string())
+            .unwrap_or_else(|| "panicked".to_string());
+        // a panic raised by the harness' own code (paths relative to the harness crate) is a harness
+        // bug, not an outcome of the code under test: let it surface as INCONCLUSIVE
+        if msg.starts_with("panicked at src/") {
+            panic!("harness bug inside catch: {msg}");
+        }
+        msg
     })
 }
 
